@@ -8,7 +8,7 @@ from pv.entail import entails
 from pv.expr import ASSIGN_OPS, Ctx, guard_facts, key_contains, key_subst
 from pv.facts import AnalysisBroken, strip_targs
 from pv.formula import Formula
-from pv.loops import enclosing_loops, loop_shape
+from pv.loops import enclosing_loops, loop_shape, no_early_exit
 from pv.symenv import env_at, value_key
 from checks import lehmann as lh
 from checks.lehmann import fld, THIS
@@ -443,7 +443,7 @@ def body(chk, db, cfgname):
         shp = loop_shape(f, ctx, Ls[0]) if Ls else None
         fq = ("un", "*", fld(CW + "freqs_"))
         good = False
-        if shp is not None and shp["kind"] == "index" and shp["start"] == ("lit", 0) and not shp["exits"] and \
+        if shp is not None and shp["kind"] == "index" and shp["start"] == ("lit", 0) and no_early_exit(shp) and \
                 shp["bound"] in (("mcall", "std::vector::size", fq), ("mcall", "std::vector::size", fld(CW + "freqs_")), ("mcall", "std::vector::size", ("un", "*", fld(CW + "data_"))),
                                  ("mcall", "std::vector::size", fld(CW + "data_"))):
             w = shp["var"]
@@ -549,7 +549,7 @@ def body(chk, db, cfgname):
                 elif idx[0] == "var":
                     for L in enclosing_loops(f, j):
                         sh = loop_shape(f, ctx, L)
-                        if sh["kind"] == "index" and sh["var"][:2] == idx[:2] and sh["start"] == ("lit", 0) and sh["bound"][0] == "lit" and not sh["exits"]:
+                        if sh["kind"] == "index" and sh["var"][:2] == idx[:2] and sh["start"] == ("lit", 0) and sh["bound"][0] == "lit" and no_early_exit(sh):
                             covered |= set(range(0, sh["bound"][1] + (1 if sh["rel"] == "<=" else 0)))
             site = "%s::operator+=:all-poles" % cls
             if covered >= {0, 1, 2}:
